@@ -60,8 +60,10 @@ def run(pid, tier, replay):
 
 def shape_class(s):
     c = s["c"]
-    if c in ("vec", "newtype", "dataenum"):
+    if c in ("vec", "newtype"):
         return c + "<" + shape_class(s["e"]) + ">"
+    if c == "dataenum":
+        return "dataenum:" + s.get("vk", "newtype") + "<" + shape_class(s["e"]) + ">"
     if c == "map":
         return "map<" + s["k"]["c"] + "," + shape_class(s["v"]) + ">"
     if c in ("tuple", "struct", "tstruct", "dict"):
